@@ -56,6 +56,7 @@ type Behaviour struct {
 	Steps       []M             `json:"steps"`
 	Driver      int             `json:"driver"`       // number of code-led driver steps appended to Steps
 	ReplicaEnd  int             `json:"replica_end"`  // driver behaviours: a Replica(n) observation after the last driver step
+	ProbeAfter  bool            `json:"probe_after"`  // run ProbeMsgs after Steps (data family: a state is reached by replaying a path)
 	ExportEvery int             `json:"export_every"` // driver behaviours: an ExportImport observation after every k-th driver step
 	Probes      int             `json:"probes"`
 	ProbeMsgs   []M             `json:"probe_msgs"` // edge cover: these messages are tried on throw-away branches of the genesis state // after every step: this many driver messages tried on throw-away branches of the state
@@ -175,16 +176,26 @@ func (r *runner) run() {
 	r.lines = append(r.lines, &Line{K: "init", ID: b.ID, St: st, Ds: r.lastData, Xs: r.lastX, Ob: ob,
 		Ev: M{"type": "Init", "m": M{"type": "Init"}, "ok": true, "resp": noneResp(), "signers": []string{}, "dom": "spec"}})
 
-	for _, m := range b.ProbeMsgs {
-		r.probeOne(cloneM(m), "spec")
-		if r.fatal != "" {
-			return
+	if !b.ProbeAfter {
+		for _, m := range b.ProbeMsgs {
+			r.probeOne(cloneM(m), "spec")
+			if r.fatal != "" {
+				return
+			}
 		}
 	}
 	for _, m := range b.Steps {
 		r.step(cloneM(m)) // the concretiser rewrites amount leaves; keep the behaviour pristine for replicas
 		if r.fatal != "" {
 			return
+		}
+	}
+	if b.ProbeAfter {
+		for _, m := range b.ProbeMsgs {
+			r.probeOne(cloneM(m), "spec")
+			if r.fatal != "" {
+				return
+			}
 		}
 	}
 	if b.Driver > 0 && b.Family != "data" && b.Family != "intertx" {
@@ -382,7 +393,83 @@ func (r *runner) probeBlock(m M, dom string) {
 }
 
 // probeOne tries one abstract message on a throw-away branch of the current state.
+// probeData: the data family's probe.  The line after it is an "init" line carrying the
+// unchanged main state (TraceData treats init lines as resets).
+func (r *runner) probeData(m M, dom string) {
+	typ := str(m, "type")
+	ev := M{"type": typ, "m": m, "dom": dom, "resp": noneResp(), "signers": []string{}, "ok": false}
+	ob := M{"panicked": false, "probe": true, "kv_before": "", "kv_after": ""}
+	ctx := r.app.Ctx()
+	var pds *DataState
+	if typ == "BeginBlock" {
+		// block time only moves forward on the main chain; on a branch the header time is set
+		cctx, _ := ctx.CacheContext()
+		cctx = cctx.WithBlockTime(TickTime(int(num(m, "t"))))
+		ev["ok"], ev["signers"] = true, []string{"none"}
+		ds, notes := r.app.ProjectData(cctx)
+		for k, v := range obsOf(notes) {
+			ob[k] = v
+		}
+		pds = ds
+	} else {
+		msg, err := r.prof.Concretise(m)
+		if err != nil {
+			r.fatal = err.Error()
+			return
+		}
+		signers := []string{}
+		for _, s := range msg.GetSigners() {
+			signers = append(signers, Name(s))
+		}
+		ev["signers"] = signers
+		cctx, _ := ctx.CacheContext()
+		var res *sdk.Result
+		func() {
+			defer func() {
+				if p := recover(); p != nil {
+					err = fmt.Errorf("recovered: %v", p)
+					ob["panicked"] = true
+				}
+			}()
+			if err = msg.ValidateBasic(); err != nil {
+				return
+			}
+			h := r.app.ba.MsgServiceRouter().Handler(msg)
+			if h == nil {
+				err = fmt.Errorf("no handler")
+				return
+			}
+			res, err = h(cctx, msg)
+		}()
+		use := ctx
+		if err == nil && res != nil {
+			ev["ok"] = true
+			if len(res.MsgResponses) == 1 {
+				ev["resp"] = r.respOfAny(res.MsgResponses[0], res.Events)
+			}
+			use = cctx
+		} else {
+			ob["log"] = firstLine(fmt.Sprint(err))
+		}
+		ds, notes := r.app.ProjectData(use)
+		for k, v := range obsOf(notes) {
+			ob[k] = v
+		}
+		pds = ds
+	}
+	r.lines = append(r.lines, &Line{K: "step", Ev: ev, Ds: pds, Ob: ob})
+	mds, mnotes := r.app.ProjectData(ctx)
+	rob := obsOf(mnotes)
+	rob["panicked"], rob["panic"] = false, ""
+	r.lines = append(r.lines, &Line{K: "init", ID: r.b.ID, Ds: mds, Ob: rob,
+		Ev: M{"type": "Init", "m": M{"type": "Init"}, "ok": true, "resp": noneResp(), "signers": []string{}, "dom": "spec"}})
+}
+
 func (r *runner) probeOne(m M, dom string) {
+	if r.b.Family == "data" {
+		r.probeData(m, dom)
+		return
+	}
 	{
 		typ := str(m, "type")
 		if typ == "BeginBlock" {
